@@ -74,7 +74,7 @@ class RoleFlow(object):
 
 
 def check_call(rep, rule, inst, rf, call, callee, allowed_consts=None,
-               exempt_omit=(), skip_self=None):
+               exempt_omit=(), skip_self=None, accept=()):
     """Check one resolved call.  Returns number of role-carrying formals
     examined."""
     allowed_consts = allowed_consts or {}
@@ -119,7 +119,7 @@ def check_call(rep, rule, inst, rf, call, callee, allowed_consts=None,
             rep.ok(rule, inst, "%s: actual of unknown role (not judged)" %
                    txt, call)
         elif got[0] == "role":
-            rep.check(got[1] == want, rule, inst,
+            rep.check(got[1] == want or (f, got[1]) in accept, rule, inst,
                       "%s: the %s formal receives the caller's %s value" % (
                           txt, want, got[1]),
                       construct="%s gets %s" % (txt, got[1]), node=call,
